@@ -377,7 +377,9 @@ UNITS.append(dict(name='nrf52_isr', extracts=ISR_EX, code=ISR_CODE, object_bits=
 
 # the consumer: link_layer<>::handle_received_data hands each stored PDU to the upper layers exactly once and in order (contract in lle.py)
 import lle
-UNITS.append(lle.unit(['handle_received_data'], name='consumer'))
+UNITS.append(lle.unit(['handle_received_data'], name='consumer', replay=dict(src='replay/c15_consumer_replay.cpp', cxxflags=['-DNDEBUG', '-I/repo/tests/test_tools', '-I/repo/tests/link_layer'],
+    repo_sources=['tests/test_tools/test_radio.cpp', 'tests/test_tools/test_servers.cpp', 'tests/test_tools/hexdump.cpp', 'tests/test_tools/buffer_io.cpp', 'tests/test_tools/address_io.cpp',
+                  'bluetoe/link_layer/delta_time.cpp', 'bluetoe/link_layer/channel_map.cpp', 'bluetoe/link_layer/connection_details.cpp', 'bluetoe/utility/address.cpp'])))
 
 META = dict(
     level='proof',
@@ -392,7 +394,8 @@ META = dict(
                 "stored (no receive buffer: 3 byte scratch area) or failed its CRC reaches next_transmit() only - nothing is acknowledged. Consumer "
                 "(link_layer<>::handle_received_data, real body with a loop contract over a queue of any content): the stored PDUs are taken from the head of the queue in "
                 "order; each is handed to exactly one handler - LL control PDUs to handle_ll_control_data, data PDUs to L2CAP - and freed exactly once, right after it was "
-                "handled; a PDU L2CAP or the link layer cannot take now (no transmit buffer, L2CAP refuses, link disconnecting) stays at the head and is not freed.",
+                "handled; a PDU L2CAP or the link layer cannot take NOW (no transmit buffer, L2CAP refuses, link disconnecting) stays at the head and is not freed; a PDU that is neither LL "
+                "control nor the start of an L2CAP PDU is dropped - nothing blocks the queue for good.",
     assumptions=["whole-history reliability (every committed PDU is eventually delivered exactly once, in order, under any loss pattern) follows from "
                  "these step contracts by the alternating-bit argument (sender repeats until NESN != SN, receiver accepts iff SN == next expected); "
                  "that argument is on paper, each step is machine checked",
